@@ -3,8 +3,19 @@ C12 — patch application is all-or-nothing and exact when it succeeds.
 Property theorems only. Model: Rip/Model/Patch.lean, Rip/Model/PatchParse.lean.
 -/
 import Rip.Lemmas.PatchExact
+import Rip.Lemmas.PatchAtomic
 namespace Rip.Props.C12
-open Rip.Proto Rip.Patch
+open Rip.Proto Rip.Patch Rip.Text
+
+/-- **All-or-nothing on failure.** For every well-formed workspace state and every operation list:
+if the engine reports an error, every path has exactly the file content it had before (in particular
+no new file remains). Carried by the undo-list invariant proved in Rip/Lemmas/PatchAtomic.lean
+(`Inv` forward, `RR` for the reverse-order revert). `fb` is the "some file lives strictly below p"
+test of the repaired revert; the driver computes it over the finite universe of a case. -/
+theorem atomic (fb : FS → Path → Bool) (hfb : FileBelowSpec fb) (fs : FS) (hwf : WF fs)
+    (ops : List Op) (e : Err) (fs' : FS)
+    (h : applyPatchOps fb fs ops = (.error e, fs')) : ∀ q, fs'.file q = fs.file q :=
+  Rip.Patch.atomic fb hfb fs hwf ops e fs' h
 
 /-- **Exact on success.** If the engine reports success, the resulting workspace is the result of
 performing the patch's operations in order (`specRun`, which knows nothing about undo lists), and
